@@ -1037,7 +1037,7 @@ func (i *interpreter) runMain(entry *ssa.Function) (end pathEnd) {
 							}
 						}
 					}
-					i.fail("panic", msg, ps.panicStk)
+					i.failWithPathModel("panic", msg, ps.panicStk)
 					result = pathEnd{kind: endFailure}
 				}
 			}
@@ -1079,6 +1079,26 @@ func (i *interpreter) fail(kind, label, stack string) {
 	f := &Failure{Harness: ps.ex.entry.Name(), Kind: kind, Label: label, Stack: stack, Path: ps.pathString()}
 	f.Events = append([]ReplayEvent{}, ps.events...)
 	ps.failure = f
+}
+
+// failWithPathModel records a failure and fills the nondeterministic inputs
+// from a model of the path condition (used for panics, where no assertion
+// term refines the model). Without a model the recorded default values stay.
+func (i *interpreter) failWithPathModel(kind, label, stack string) {
+	ps := i.ps
+	if ps.failure != nil {
+		return
+	}
+	i.fail(kind, label, stack)
+	func() {
+		defer func() { recover() }()
+		if m, ok := ps.modelFor(nil); ok {
+			ps.fillModel(ps.failure, m)
+		}
+	}()
+	if ps.sched != nil {
+		ps.failure.Schedule = append([]int{}, ps.sched.schedule...)
+	}
 }
 
 // failWithModel fills nondet event values from the solver model (solver must be in Sat state).
